@@ -737,6 +737,7 @@ impl Connection {
             sequence: self.sequence,
             expire_timestamp: self.expire_timestamp,
             replay_most_recent_sequence: self.replay_protection.verif_most_recent_sequence(),
+            replay_window_digest: self.replay_protection.verif_window_digest(),
         }
     }
 }
